@@ -232,6 +232,9 @@ func c01(p Params) func() {
 		}
 		n := 0
 		for si, sess := range sessions {
+			if shape == "SEQ" {
+				break
+			}
 			per := k
 			if shape == "S3" {
 				per = 1
@@ -257,6 +260,41 @@ func c01(p Params) func() {
 						}
 					}
 				}))
+			}
+		}
+		if shape == "SEQ" {
+			// sequential calls on one session; every completed call is kept and re-checked after the later ones
+			ths = nil
+			sentCalls = nil
+			type kept struct {
+				cmd erpc.CallCmd
+				res interface{}
+				tag string
+			}
+			var all []kept
+			for i := 0; i < k; i++ {
+				tag := fmt.Sprintf("c%d", i+1)
+				sentCalls = append(sentCalls, tag)
+				res := bk.newRes()
+				settings := []erpc.MessageSetting{erpc.WithAddMeta("tag", tag)}
+				if ps := pipeSetting(pipe); ps != nil {
+					settings = append(settings, ps)
+				}
+				cmd := cs.Call(sCall, bk.mk(tag, padFor(tag)), res, settings...)
+				all = append(all, kept{cmd, res, tag})
+			}
+			vsched.Quiesce()
+			for _, kp := range all {
+				if st := kp.cmd.Status(); !st.OK() {
+					vsched.Failf("call %s failed although no fault was injected: %s", kp.tag, world.StatStr(st))
+				}
+				rt, rp := bk.get(kp.res)
+				if rt != kp.tag || rp != "r:"+padFor(kp.tag) {
+					vsched.Failf("after later calls completed, call %s holds the result (%q,%q): not the reply to its own arguments", kp.tag, rt, rp)
+				}
+				if mt := string(kp.cmd.InputMeta().Peek("tag")); mt != kp.tag {
+					vsched.Failf("after later calls completed, the reply metadata of call %s reads tag %q", kp.tag, mt)
+				}
 			}
 		}
 		var sentBack []string
